@@ -877,9 +877,9 @@ class ServiceDiscover:
     def handle_offer(
         self, entry: someip.header.SOMEIPSDEntry, addr: _T_SOCKADDR
     ) -> None:
-        if not self.is_watching_service(entry):
-            return
-        if entry.ttl == 0:
+        if entry.ttl == 0 or not self.is_watching_service(entry):
+            # also drops the record of a service nobody is watching any more: it
+            # would be neither refreshed nor stopped, and go stale
             self.service_offer_stopped(addr, entry)
         else:
             self.service_offered(addr, entry)
